@@ -110,7 +110,11 @@ class UnwrapAbuseRule(BaseLintRule):
         """
         if self._config_override is not None:
             return self._config_override
-        return load_linter_config(context, "unwrap-abuse", UnwrapAbuseConfig)
+        # The config loader normalises top-level section names to underscores;
+        # keep the hyphenated key for directly injected metadata.
+        metadata = getattr(context, "metadata", None) or {}
+        config_key = "unwrap_abuse" if "unwrap_abuse" in metadata else "unwrap-abuse"
+        return load_linter_config(context, config_key, UnwrapAbuseConfig)
 
     def _build_violations(
         self,
